@@ -1913,6 +1913,12 @@ impl SctpInner {
             return Ok(());
         }
         self.t1_cancel();
+        // INIT collision: the peer's handshake may already have established the association (and
+        // data may have flowed) while our own INIT was still unanswered. The late INIT-ACK then only
+        // ends our INIT's timer; the TCB (cumulative TSN, tags, window) is not rewound.
+        if *self.state.lock() == SctpState::Connected {
+            return Ok(());
+        }
 
         let mut buf = chunk;
         if buf.remaining() < 16 {
@@ -2452,6 +2458,10 @@ impl SctpInner {
                 return Ok(());
             }
             *state = SctpState::Connected;
+        }
+        // ... and if our own INIT is still unanswered, it is not needed any more.
+        if matches!(&*self.t1_chunk.lock(), Some((CT_INIT, _, _))) {
+            self.t1_cancel();
         }
         self.advanced_peer_ack_tsn.store(
             self.next_tsn.load(Ordering::SeqCst).wrapping_sub(1),
